@@ -1302,6 +1302,9 @@ func (x *producerController) publishFailure(stage ReliableDeliveryStage, cause e
 // session. The debug log is therefore the only remaining action; its
 // recurrence is the observable signal of a persistently unreachable peer.
 func (x *producerController) tell(ctx *ReceiveContext, to *PID, message any) {
+	if reliableSimEnabled && reliableSimIntercept(ctx.Self(), to, message) {
+		return
+	}
 	if err := ctx.Self().Tell(context.WithoutCancel(ctx.Context()), to, message); err != nil {
 		ctx.Logger().Debugf("producer controller for endpoint=%s lost message to %s: %v", x.producer.Name(), to.Name(), err)
 	}
